@@ -110,6 +110,10 @@ func buildReplayBinary(repo string, spec LoadSpec, stubs []StubSpec, harnessName
 			pat = strings.TrimPrefix(pat, pkgName+".")
 		}
 		re := regexp.MustCompile(`(^|[^\w.])` + regexp.QuoteMeta(pat) + `\(`)
+		var reM *regexp.Regexp
+		if ss.Method != "" {
+			reM = regexp.MustCompile(`([A-Za-z_][\w.]*)\.` + regexp.QuoteMeta(ss.Method) + `\(`)
+		}
 		for _, f := range ss.Files {
 			p := filepath.Join(dir, f)
 			src, ok := ov[p]
@@ -124,10 +128,14 @@ func buildReplayBinary(repo string, spec LoadSpec, stubs []StubSpec, harnessName
 				if strings.HasPrefix(strings.TrimSpace(l), "func "+pat+"(") {
 					continue
 				}
+				if reM != nil {
+					lines[i] = reM.ReplaceAllString(l, ss.Stub+"(${1}, ")
+					continue
+				}
 				lines[i] = re.ReplaceAllString(l, "${1}"+ss.Stub+"(")
 			}
 			out := strings.Join(lines, "\n")
-			if strings.Contains(pat, ".") {
+			if reM == nil && strings.Contains(pat, ".") {
 				out += "\n\nvar _ = " + pat + "\n"
 			}
 			ov[p] = []byte(out)
